@@ -170,6 +170,7 @@ func SetStackTimeouts(rw, ping time.Duration, pingEvery time.Duration) {
 func NewStack(rf, nNodes int, size int64) (*Stack, error) {
 	startHoleCreator()
 	clearFatal()
+	takeDPPanic()
 	types.MaxChainLength = 0
 	types.ShouldPunchHoles = false
 	base := newCaseDir("stack")
